@@ -275,6 +275,28 @@ Definition process (m : machine) (p : packet) : machine * outcome :=
         end
     end.
 
+(* ---- an honest exchange: both messages delivered unmodified ------------------------------------------ *)
+
+(* initiator built from (cI, vI), responder from (cR, vR); Some (initiator's Result, responder's Result, message 1,
+   message 2) when both sides completed *)
+Definition honest_exchange (cI cR : config) (vI vR : N) : option (result * result * packet * packet) :=
+  match new_machine cI vI true, new_machine cR vR false with
+  | Some mI, Some mR =>
+      match initiate mI with
+      | (mI1, Done (Some p1) None) =>
+          match process mR p1 with
+          | (_, Done (Some p2) (Some rR)) =>
+              match process mI1 p2 with
+              | (_, Done None (Some rI)) => Some (rI, rR, p1, p2)
+              | _ => None
+              end
+          | _ => None
+          end
+      | _ => None
+      end
+  | _, _ => None
+  end.
+
 (* ---- a network of machines driven by an arbitrary (adversarial) schedule ----------------------- *)
 
 Inductive event :=
